@@ -2046,7 +2046,18 @@ def decide_on_values(pe, text, env, rep=None, generic=True):
         if isinstance(n, ast.UnaryOp) and isinstance(n.op, ast.Not):
             return not truth(n.operand)
         if isinstance(n, ast.Call) and callee(n) in ("numpy.isclose", "math.isclose") and len(n.args) >= 2:
-            return same(val(n.args[0]), val(n.args[1]))
+            a, b = val(n.args[0]), val(n.args[1])
+            if isinstance(a, Node) or isinstance(b, Node):
+                return same(a, b)
+            # two concrete values: the library's tolerance rule with the tolerances of the call (or the library's defaults)
+            kw = {k.arg: val(k.value) for k in n.keywords if k.arg in ("rtol", "atol", "rel_tol", "abs_tol")}
+            if any(isinstance(v, Node) for v in kw.values()):
+                raise Unknown()
+            if callee(n) == "numpy.isclose":
+                rtol = kw.get("rtol", val(n.args[2]) if len(n.args) > 2 else Fraction(1, 10 ** 5))
+                atol = kw.get("atol", val(n.args[3]) if len(n.args) > 3 else Fraction(1, 10 ** 8))
+                return abs(a - b) <= atol + rtol * abs(b)
+            return abs(a - b) <= max(kw.get("rel_tol", Fraction(1, 10 ** 9)) * max(abs(a), abs(b)), kw.get("abs_tol", Fraction(0)))
         if isinstance(n, ast.Compare) and len(n.ops) == 1:
             a, b = val(n.left), val(n.comparators[0])
             op = n.ops[0]
